@@ -199,6 +199,8 @@ def run_impl(case, copy_inputs=True, strict=False, plain=False, derived=None, re
                 text = None
                 out["str_error"] = type(e2).__name__
             out.update(status="err", kind="mp", cls=type(e).__name__, ref=ref, text=text)
+            if hasattr(e, "shape_a") or hasattr(e, "shape_b"):
+                out["named_shapes"] = (getattr(e, "shape_a", None), getattr(e, "shape_b", None))       # what a shape error says about the offenders (not the exception itself: its traceback holds the arrays)
         except Exception as e:
             out.update(status="err", kind="raw", cls=type(e).__name__, ref="none", text=str(e))
         finally:
